@@ -260,7 +260,7 @@ def PROOFS():
     return [("vf.contracts.categorical_c", [K + "ContrastMatrix.__init__", K + "Treatment.code_with_intercept",
                                             K + "Treatment.code_without_intercept"]),
             ("vf.contracts.utils_c", utils_c.FUNCTIONS),
-            ("vf.contracts.terms_c", ["formulae.terms.terms.GroupSpecificTerm.eval_new_data"]),
+            ("vf.contracts.terms_c", ["formulae.terms.terms.GroupSpecificTerm.eval_new_data", "formulae.terms.terms.Term.set_type", "formulae.terms.terms.Term.get_component"]),
             ("vf.contracts.variable_c", ["formulae.terms.variable.Variable.labels", "formulae.terms.call.Call.labels"] + ["formulae.terms.variable.Variable.eval_categoric", "formulae.terms.call.Call.eval_categoric"]),
             # property lemmas: label j of a categorical factor names exactly the level whose indicator column j is; two-way interaction
             # the intercept column: one 1 per row of the frame it is evaluated on (training and new data)
